@@ -149,7 +149,7 @@ impl Prop for E2eProp {
         (mixed_spec(tier.pick(12, 30)), config_spec(tier.pick(40, 200))).prop_map(|(spec, config)| E2eCase { spec, config }).boxed()
     }
     fn cases(&self, tier: Tier) -> u32 {
-        tier.pick(2_400, 60_000)
+        tier.pick(2_400, 20_000)
     }
     fn shards(&self, _tier: Tier) -> u32 {
         16
@@ -236,7 +236,7 @@ impl Prop for RelProp {
         (problem_spec(tier.pick(12, 30)), config_spec(tier.pick(40, 200)), prop::collection::vec(any::<u16>(), 24)).prop_map(|(spec, config, picks)| RelCase { spec: relation_spec(spec), config, picks }).boxed()
     }
     fn cases(&self, tier: Tier) -> u32 {
-        tier.pick(1_200, 30_000)
+        tier.pick(1_200, 8_000)
     }
     fn shards(&self, _tier: Tier) -> u32 {
         16
